@@ -144,7 +144,13 @@ impl StreamMaps {
                 let mut stream_map = StreamMap::new();
                 stream_map.insert(key, &value, generation)?;
                 let descriptor = StreamMapDescriptor::global(stream_map);
-                self.stream_maps.insert(name.to_string(), vec![descriptor]);
+                match self.stream_maps.entry(name.to_string()) {
+                    // restricted stream maps with this name could be alive: keep them, the global one goes below them
+                    Occupied(mut entry) => entry.get_mut().insert(0, descriptor),
+                    Vacant(entry) => {
+                        entry.insert(vec![descriptor]);
+                    }
+                }
                 Ok(())
             }
         }
